@@ -155,6 +155,23 @@ def drive_conversions(rec, count):
                            "_what": "b_to_znx128 of the residues of %d" % v})
             events.append({"e": "QConv", "kind": "add_bbb", "x": qc.residues(bx[i]), "y": qc.residues(by[i]), "res": qc.residues(bs[i]),
                            "_what": "add_bbb"})
+        # layout-b addition on structured lanes: every pair of extreme / boundary representatives (both near 2^64 included)
+        def structured(k):
+            big = q[k] << 33
+            return [0, 1, q[k] - 1, q[k], U64, U64 - 1, U64 - q[k], 1 << 63, (1 << 63) - 1, big - 1, big, big + 1, (1 << 64) - big, (1 << 64) - big - 1]
+        pairs = [(i, j) for i in range(14) for j in range(14)]
+        ms = len(pairs)
+        Sx, Sy, Ss = Buf(32 * ms), Buf(32 * ms), Buf(32 * ms, fill=0xEE)
+        sx = np.array([[structured(k)[i] for k in range(4)] for (i, j) in pairs], dtype=np.uint64)
+        sy = np.array([[structured(k)[j] for k in range(4)] for (i, j) in pairs], dtype=np.uint64)
+        Sx.u64[:] = sx.reshape(-1)
+        Sy.u64[:] = sy.reshape(-1)
+        L.fn("q120_add_bbb_simple", "v uppp")(ms, Ss.addr, Sx.addr, Sy.addr)
+        ss = Ss.u64.reshape(ms, 4)
+        for t in range(ms):
+            rec.case(("add_bbb structured", pairs[t][0], pairs[t][1]))
+            events.append({"e": "QConv", "kind": "add_bbb", "x": qc.residues(sx[t]), "y": qc.residues(sy[t]), "res": qc.residues(ss[t]),
+                           "_what": "add_bbb on structured lanes %s + %s" % ([int(v) for v in sx[t]], [int(v) for v in sy[t]])})
         Cx, Cy, Cs = Buf(32 * m), Buf(32 * m), Buf(32 * m, fill=0xEE)
         cx = np.array([sum(([*qc.c_pair(rng.randrange(0, q[k]), k)] for k in range(4)), []) for _ in range(m)], dtype=np.uint32)
         cy = np.array([sum(([*qc.c_pair(rng.randrange(0, q[k]), k, rng)] for k in range(4)), []) for _ in range(m)], dtype=np.uint32)
